@@ -681,3 +681,60 @@ Proof.
   intros [A B C D G E F] Hs. constructor; cbn [udp tcp streams mcast self set_mcast]; auto.
   intros g' q [Hin|Hin]; [inversion Hin; subst; exact Hs|eauto].
 Qed.
+
+(* --- the stack of a crashed host (empty tables, /repo 2342d63) --- *)
+
+Definition crashed_reply (m : inbound) : reply :=
+  match m with
+  | ISyn _ _ => RRefused | IData _ | IFin _ => RReset | IRst _ => RRemoved | IUdp _ => RDropped
+  end.
+
+Lemma receive_empty t m :
+  udp t = [] -> tcp t = [] -> streams t = [] ->
+  receive t m = (t, crashed_reply m).
+Proof.
+  intros Hu Ht Hs. destruct m as [port s|p|p|p|port]; cbn; rewrite ?Hu, ?Ht, ?Hs; cbn; auto.
+  destruct t; cbn in *; subst; reflexivity.
+Qed.
+
+(* after all sockets of a host have been released (in any order), whatever
+   arrives for it — any number of messages — leaves its tables empty, queues
+   nothing, delivers nothing: SYNs are refused, data and FINs are answered with
+   a RST, datagrams are dropped *)
+Theorem c04_crashed_stack_answers_lemma t objs order msgs :
+  owns t objs -> Permutation objs order ->
+  let t0 := fst (drop_all t order) in
+  fst (fold_left (fun acc m => (fst (receive (fst acc) m), snd acc ++ [snd (receive (fst acc) m)]))
+                 msgs (t0, [])) = t0 /\
+  snd (fold_left (fun acc m => (fst (receive (fst acc) m), snd acc ++ [snd (receive (fst acc) m)]))
+                 msgs (t0, [])) = map crashed_reply msgs.
+Proof.
+  intros H P. cbv zeta.
+  destruct (c04_tables_released_lemma t objs order H P) as (Hu & Ht & Hs & _).
+  set (t0 := fst (drop_all t order)) in *.
+  assert (G : forall msgs acc, fst acc = t0 ->
+            fst (fold_left (fun acc m => (fst (receive (fst acc) m), snd acc ++ [snd (receive (fst acc) m)])) msgs acc) = t0 /\
+            snd (fold_left (fun acc m => (fst (receive (fst acc) m), snd acc ++ [snd (receive (fst acc) m)])) msgs acc)
+              = snd acc ++ map crashed_reply msgs).
+  { induction msgs0 as [|m ms IH]; intros acc Ha; cbn.
+    - now rewrite app_nil_r.
+    - rewrite Ha, (receive_empty t0 m Hu Ht Hs). cbn [fst snd].
+      destruct (IH (t0, snd acc ++ [crashed_reply m]) eq_refl) as (A & B).
+      split; [exact A|]. rewrite B. cbn [snd]. now rewrite <- app_assoc. }
+  destruct (G msgs (t0, []) eq_refl) as (A & B). split; [exact A|exact B].
+Qed.
+
+(* the `crashed` flag of the core: set by Sim::crash exactly for hosts whose
+   software was running (a finished host is not "crashed": nothing is drained
+   for it), cleared by bounce, untouched by steps *)
+Theorem c04_crashed_flag_lemma d r :
+  (running r = true -> crashed (crash1 r) = true) /\
+  (running r = false -> crashed (crash1 r) = crashed r) /\
+  crashed (bounce1 r) = false /\
+  crashed (adv d r) = crashed r /\
+  crashed (new_rt (is_client r) (sw r) d) = false.
+Proof.
+  repeat split; cbn; try (intros ->; reflexivity).
+  unfold adv. destruct (running r) eqn:E; [|reflexivity].
+  destruct (rt_tick_fst_running r E) as [b ->]. reflexivity.
+Qed.
